@@ -471,7 +471,7 @@ impl Bucket {
 
         let missing = self.fill.saturating_neg();
 
-        let periods_needed = (missing / self.refill) + 1;
+        let periods_needed = (missing / self.refill).saturating_add(1);
         let periods_needed = u32::try_from(periods_needed).unwrap_or(u32::MAX);
 
         Err(self.last_fill + periods_needed * self.refill_period)
